@@ -280,9 +280,67 @@ def check_vtw(case, ctx):
     ctx.nt(nt)
 
 
+# ------------------------------------------------------------ large inputs (vectorised oracle)
+def check_large(case, ctx):
+    """tens of thousands of points: block means and the three weighting rules against numpy.bincount on floor-division labels"""
+    e, n, labels, region, spacing = blocks.big_cloud(case)
+    keep = (e > region[0]) & (e < region[1]) & (n > region[2]) & (n < region[3])
+    e, n, labels = e[keep], n[keep], labels[keep]
+    if e.size == 0:
+        ctx.skip("no_points_inside")
+    rng = np.random.RandomState(case["seed"] + 2)
+    data = np.round(rng.uniform(-50, 50, e.size) * 64) / 64 + 7.0 * (labels % 5)
+    w = np.round(rng.uniform(0.25, 4, e.size) * 16) / 16
+    kw = dict(spacing=spacing) if case["by"] == "spacing" else dict(shape=(case["nb_n"], case["nb_e"]))
+    nb = case["nb_n"] * case["nb_e"]
+    cnt = np.bincount(labels, minlength=nb)
+    occ = np.nonzero(cnt)[0]
+    mean = np.bincount(labels, data, nb)[occ] / cnt[occ]
+    wsum = np.bincount(labels, w, nb)[occ]
+    wmean = np.bincount(labels, w * data, nb)[occ] / wsum
+    var = np.bincount(labels, (data - (np.bincount(labels, data, nb) / np.maximum(cnt, 1))[labels]) ** 2, nb)[occ] / cnt[occ]
+    wvar = np.bincount(labels, w * (data - (np.bincount(labels, w * data, nb) / np.maximum(np.bincount(labels, w, nb), 1e-300))[labels]) ** 2, nb)[occ] / wsum
+
+    def v2w(v):
+        pos = v[v > TOL]
+        out = np.ones_like(v)
+        if pos.size:
+            out[v > TOL] = pos.min() / v[v > TOL]
+        return out
+
+    for name, bm, args, exp_m, exp_w in (("unweighted", vd.BlockMean(region=region, **kw), (data,), mean, None),
+                                         ("weighted", vd.BlockMean(region=region, **kw), (data, w), wmean, v2w(wvar)),
+                                         ("uncertainty", vd.BlockMean(region=region, uncertainty=True, **kw), (data, w), wmean, v2w(1.0 / wsum))):
+        _, got_m, got_w = bm.filter((e, n), *args)
+        got_m, got_w = np.asarray(got_m), np.asarray(got_w)
+        ctx.check(got_m.shape == occ.shape and got_w.shape == occ.shape, "%s: %d means for %d non-empty blocks", name, got_m.size, occ.size)
+        bad = np.abs(got_m - exp_m) > 1e-11 * np.maximum(np.abs(exp_m), 1.0)
+        if bad.any():
+            k = int(np.argmax(bad))
+            raise Violation("%s BlockMean over %d points: block %d (%d members) has mean %r, bincount gives %r" % (name, e.size, int(occ[k]), int(cnt[occ][k]), float(got_m[k]), float(exp_m[k])))
+        if exp_w is None:
+            # either variance convention (DESIGN 3.2, D10): compare with both
+            ok = False
+            for ddof in (0, 1):
+                vv = np.where(cnt[occ] > ddof, var * cnt[occ] / np.maximum(cnt[occ] - ddof, 1), np.nan if ddof else 0.0)
+                vv = np.nan_to_num(vv, nan=0.0)
+                ok = ok or np.all(np.abs(got_w - v2w(vv)) <= 1e-9)
+            ctx.check(ok, "unweighted BlockMean over %d points: weights match min-variance/variance under neither variance convention", e.size)
+        else:
+            bad = np.abs(got_w - exp_w) > 1e-9 * np.maximum(exp_w, 1e-12)
+            if bad.any():
+                k = int(np.argmax(bad))
+                raise Violation("%s BlockMean over %d points: block %d has weight %r, the documented rule gives %r" % (name, e.size, int(occ[k]), float(got_w[k]), float(exp_w[k])))
+        ctx.check(np.all(got_w > 0) and np.all(got_w <= 1) and np.any(got_w == 1), "%s: weights must lie in (0, 1] with a 1 present", name)
+    ctx.label("n%d" % e.size, case["by"])
+    ctx.nt(occ.size >= 4)
+
+
 SUBCHECKS = [
     Sub("block_mean", check_mean, strategy=mean_cases(), quick=300, thorough=2000, shards_quick=4,
         doc="BlockMean.filter means, weights (three documented rules), coordinates, input purity (also read-only), rejection of uncertainty without weights"),
     Sub("variance_to_weights", check_vtw, strategy=vtw_cases(), quick=1500, thorough=5000,
         doc="variance_to_weights element-wise vs the formula; NaN/zero/tolerance handling; shape, dtype, tuple-ness; input bytes unchanged incl. read-only"),
+    Sub("large", check_large, strategy=blocks.big_cases, quick=6, thorough=40, heavy=True,
+        doc="20 000 - 120 000 points, up to 1 600 blocks: means and the three weighting rules against numpy.bincount"),
 ]
